@@ -114,6 +114,15 @@ func c03Compare(r *ev.Run, n *wire.N, h bind.Hist, what string, bad func(sig, wh
 
 func c03(r *ev.Run, replay string) {
 	if replay != "" {
+		var rc struct {
+			Range []int  `json:"range"`
+			Field string `json:"field"`
+		}
+		if err := ev.LoadReplay(replay, &rc); err == nil && len(rc.Range) == 2 {
+			c03Range(r, rc.Range[0], rc.Range[1], rc.Field)
+			r.Set("states", 1)
+			return
+		}
 		var c shapeCase
 		if err := ev.LoadReplay(replay, &c); err == nil && c.Tree != nil {
 			c03Compare(r, c.Tree, c.Hist, "", func(sig, what string) { r.Violation(sig, what, c) })
@@ -188,8 +197,11 @@ func c03(r *ev.Run, replay string) {
 			r.Completed(fmt.Sprintf("every pair of fields adjacent on the wire of the %d base messages set to {0, all-ones, pattern} x {0, all-ones, pattern}", len(bases)))
 		}
 	}
+	nrange := c03Ranges(r)
+	r.Set("bit_range_encodings", nrange)
+	nvar += nrange
 	r.Set("states", shapes+nvar)
-	r.Set("single_field_variations", nvar)
+	r.Set("single_field_variations", nvar-nrange)
 	r.Set("traces_validated_against_impl", r.Counter("histories")+nvar)
 	r.Set("evaluations", r.Counter("histories")+nvar)
 	r.Set("rule", "states are model trees: the shape corpus under all builder histories plus one-field-off-base variations; each is built through the API and compared byte for byte with the reference encoding")
